@@ -1918,6 +1918,90 @@ Proof.
 Qed.
 
 
+Lemma All_length : n - t <= Z.of_nat (length (filter notB (range n))).
+Proof.
+  pose proof (filter_notB_length (range n) (range_nodup n)) as X.
+  unfold range in X at 1. rewrite map_length, seq_length in X. lia.
+Qed.
+
+(* VALIDITY, first part: every honest party attempts the delivery of every slot an honest sender broadcast *)
+Lemma slot_TD : 0 < t -> forall g, ALL g -> handed_over g -> forall j dst s v, hon j ->
+  In (j, dst, Msg 0 j s 1 v) (gsent g) -> forall q, hon q -> TD g q (0, j, s).
+Proof.
+  intros T0 g A HO j dst s v Hj Im q Hq.
+  pose proof A as (I & I2 & (A0 & A1 & A2 & A3 & A4) & (NSg & _ & K1g & K2g & _ & U0g & U1g & U2g) & (K5g & G0eg & G4eg & _)).
+  set (tg := (0, j, s)). set (d := H v).
+  assert (Nbj : byz j = false). { unfold honest in Hj. b2p. destruct (byz j); auto; discriminate. }
+  assert (RANGE : forall q', hon q' -> 0 <= q' < n). { intros q' Hq'. unfold honest, is_party in Hq'. b2p. lia. }
+  (* (a) the r-send went to everybody *)
+  assert (SA : forall i, 0 <= i < n -> In (j, i, Msg 0 j s 1 v) (gsent g)).
+  { destruct (U0g _ _ _ Im eq_refl) as (_ & _ & Rs). cbn in Rs. destruct (U2g j) as (_ & Al).
+    destruct (Al s Rs) as (v' & Av). intros i Ri. specialize (Av i Ri).
+    assert (v' = v); [|subst; exact Av]. eapply (U1g j _ (Msg 0 j s 1 v') _ (Msg 0 j s 1 v)); eauto. }
+  (* (b) every honest party echoed H v *)
+  assert (EC : forall q', hon q' -> echoed g q' tg d).
+  { intros q' Hq'. pose proof (HO _ _ _ (SA q' (RANGE q' Hq')) Hq') as F. cbn in F. specialize (F ltac:(lia)).
+    destruct (K5g q' j 0 s F Nbj) as (v1 & (dst1 & m1 & Im1 & Tm1 & Am1 & Pm1) & _ & E1).
+    assert (v1 = v); [|subst; exact E1].
+    rewrite <- Pm1. eapply (U1g j _ m1 _ (Msg 0 j s 1 v)); eauto. }
+  assert (TL : toolong tg d = false) by apply toolong_ok.
+  (* (c) every honest party has the echo quorum, (d) hence sent r-ready *)
+  assert (RS : forall q', hon q' -> exists dst', sent_ready g q' dst' tg d).
+  { intros q' Hq'. apply A2; auto. right.
+    destruct (G4eg q' tg d TL) as (L & ND & Len & AF & AC).
+    assert (INC : incl (filter notB (range n)) L).
+    { intros l J. apply filter_In in J. destruct J as [J NB]. apply notB_spec in NB. apply range_in in J.
+      assert (Hl : hon l) by (apply honest_of; auto).
+      assert (Nbl : byz l = false). { destruct (byz l) eqn:Y; auto. exfalso; auto. }
+      destruct (EC l Hl) as (dst' & e & Ie & Te & Ae & Pe).
+      pose proof (K2g _ _ _ Ie Ae q' (RANGE q' Hq')) as Iq.
+      pose proof (HO _ _ _ Iq Hq') as F. rewrite Ae, Te in F. cbn in F. specialize (F ltac:(lia)).
+      apply AC; auto. exists e. auto. }
+    apply NoDup_incl_length in INC; [|apply NoDup_filter; apply range_nodup].
+    pose proof All_length. lia. }
+  (* (e) every honest party has the ready quorum, (f) hence fixed the digest *)
+  destruct (A4 q tg d TL) as (L & ND & Len & AF & AC).
+  assert (INC : incl (filter notB (range n)) L).
+  { intros l J. apply filter_In in J. destruct J as [J NB]. apply notB_spec in NB. apply range_in in J.
+    assert (Hl : hon l) by (apply honest_of; auto).
+    assert (Nbl : byz l = false). { destruct (byz l) eqn:Y; auto. exfalso; auto. }
+    destruct (RS l Hl) as (dst' & x & Ix & Tx & Ax & Px).
+    pose proof (A1 _ _ _ Ix Ax q (RANGE q Hq)) as Iq.
+    pose proof (HO _ _ _ Iq Hq) as F. rewrite Ax, Tx in F. cbn in F. specialize (F ltac:(lia)).
+    apply AC; auto. exists x. auto. }
+  apply NoDup_incl_length in INC; [|apply NoDup_filter; apply range_nodup].
+  pose proof All_length as AL.
+  assert (R2 : 2 * t + 1 <= rd (gp g q) tg d) by lia.
+  pose proof (A3 _ _ _ R2) as NN. destruct (dbar (gp g q) tg) as [d'|] eqn:Dq; [|congruence].
+  (* (g) payload retrieval / delivery attempt *)
+  eapply dbar_TD; eauto.
+Qed.
+
+(* VALIDITY on the FIFO root channel: every broadcast of an honest sender has been delivered by every honest party *)
+Theorem validity_at_quiescence : 0 < t -> forall es, forallb noswitch es = true ->
+  handed_over (run es) -> buffers_drained (run es) ->
+  forall j dst s v, hon j -> In (j, dst, Msg 0 j s 1 v) (gsent (run es)) ->
+  forall q, hon q -> In (q, (0, j, s), v) (glog (run es)).
+Proof.
+  intros T0 es NSes HO BD j dst s v Hj Im q Hq. pose proof (ALL_run es NSes) as A. set (g := run es) in *.
+  pose proof A as (I & (_ & _ & _ & _ & J8bg) & _ & (NSg & _ & _ & _ & _ & U0g & U1g & U2g) & _).
+  assert (Nbj : byz j = false). { unfold honest in Hj. b2p. destruct (byz j); auto; discriminate. }
+  destruct (U2g j) as (_ & Al).
+  assert (EX : forall k : nat, forall s0, (Z.to_nat s0 <= k)%nat -> 1 <= s0 <= sq (gp g j) ->
+               exists v', In (q, (0, j, s0), v') (glog g)).
+  { induction k as [|k IHk]; intros s0 Sk Rs; [lia|].
+    destruct (Al s0 Rs) as (v0 & Av).
+    apply (TD_delivered g A BD q j s0 Hq); [lia| |].
+    - eapply (slot_TD T0 g A HO j 0 s0 v0); eauto. apply Av. unfold honest, is_party in Hq. b2p. lia.
+    - intros s' Rs'. apply IHk; lia. }
+  destruct (U0g _ _ _ Im eq_refl) as (_ & _ & Rs). cbn in Rs.
+  destruct (EX (Z.to_nat s) s (le_n _) Rs) as (v' & Iq).
+  assert (v' = v); [|subst; exact Iq].
+  apply H_inj. pose proof (J8bg _ _ _ Iq) as S.
+  apply (Sup_send_digest g I U1g j 0 s _ S Nbj dst (Msg 0 j s 1 v) Im); reflexivity.
+Qed.
+
+
 End Bracha.
 
 (* ---- the property statements with a collision-free digest hash ------------------------------------------- *)
